@@ -437,10 +437,13 @@ func checkC02Format(c *BuildCase, f string, d *Decoded, table map[string]map[str
 		}
 	}
 	// ---- relations ----
-	owner := map[string]string{}
+	owner := map[string]map[string]bool{}
 	for _, rel := range allRels {
 		for _, it := range configuredRel(c, f, rel) {
-			owner[it] = rel
+			if owner[it] == nil {
+				owner[it] = map[string]bool{}
+			}
+			owner[it][rel] = true
 		}
 	}
 	for _, rel := range allRels {
@@ -464,8 +467,8 @@ func checkC02Format(c *BuildCase, f string, d *Decoded, table map[string]map[str
 			vs.add("C02.relation."+rel, f, "%s: package lists %q, configured %q", rel, got, want)
 		}
 		for _, g := range got {
-			if o, ok := owner[g]; ok && o != rel {
-				vs.add("C02.relation.wrong-tag", f, "%q is configured under %s but appears under %s", g, o, rel)
+			if o, ok := owner[g]; ok && !o[rel] {
+				vs.add("C02.relation.wrong-tag", f, "%q is configured under %v but appears under %s", g, sortedKeys(o), rel)
 			}
 		}
 	}
